@@ -267,6 +267,27 @@ def ev_psd(w):
     return (h(w.M), 'psd'), h(np.asarray(r))
 
 
+@seeded
+def ev_psd_b(w):
+    import lentil
+    r = lentil.power_spectrum(w.M, 0.25, 1e-9, 5, 3, seed=14)       # same shape / seed as 'psd', another pixel scale
+    return (h(w.M), 'psd_b'), h(np.asarray(r))
+
+
+def ev_zfit_b(w):
+    import lentil
+    mask = np.asarray(w.A) != 0
+    rho, theta = lentil.zernike_coordinates(mask, shift=(0.5, -0.25), rotate=30)
+    c = lentil.zernike_fit(w.O, mask, [1, 2, 3, 4], rho=rho, theta=theta)
+    r = lentil.zernike_remove(w.O, mask, [2, 3], rho=rho, theta=theta)
+    return (h(w.O), h(w.A), 'b'), h(np.asarray(c), np.asarray(r))
+
+
+def ev_spec_sample_b(w):
+    r = w.S1.sample(np.array([450.0, 650.0]), method='quadratic')
+    return (dig_spec(w.S1), 'sample_b'), h(np.round(np.asarray(r), 9))
+
+
 def ev_global_rand(w):
     np.random.rand(3)          # the caller uses the global generator
     return None, None
@@ -364,7 +385,7 @@ EVENTS = {
     'opd_add': (hasP, ev_opd_add, {'P'}), 'opd_add_b': (hasP, ev_opd_add_b, {'P'}), 'rescale': (hasP, ev_rescale, set()),
     'dft2_a': (always, ev_dft2_a, {'HOLD'}), 'dft2_b': (always, ev_dft2_b, set()), 'dft2_c': (always, ev_dft2_c, set()), 'idft2': (always, ev_idft2, set()),
     'adc': (always, ev_adc, set()), 'shot': (always, ev_shot, set()), 'read': (always, ev_read, set()), 'dark': (always, ev_dark, set()),
-    'psd': (always, ev_psd, set()), 'global_rand': (always, ev_global_rand, set()), 'smear_random': (always, ev_smear_random, set()),
+    'psd': (always, ev_psd, set()), 'psd_b': (always, ev_psd_b, set()), 'zfit_b': (always, ev_zfit_b, set()), 'spec_sample_b': (always, ev_spec_sample_b, set()), 'global_rand': (always, ev_global_rand, set()), 'smear_random': (always, ev_smear_random, set()),
     'pixel': (always, ev_pixel, set()), 'jitter': (always, ev_jitter, set()), 'smear': (always, ev_smear, set()),
     'collect': (always, ev_collect, set()), 'bayer': (always, ev_bayer, set()), 'spec_mul': (always, ev_spec_mul, set()),
     'spec_sample': (always, ev_spec_sample, set()), 'spec_integrate': (always, ev_spec_integrate, set()), 'spec_bin': (always, ev_spec_bin, set()),
@@ -484,8 +505,7 @@ class _Silent(engine.Acc):
 def rebuild(seed, frozen, hist):
     """A state is the history that reaches it: fresh world, cold library caches, events replayed.  This makes every
     hidden process-global (the DFT coordinate LRU cache, the numpy global generator) a function of the history."""
-    import lentil
-    lentil.fourier._dft2_coords.cache_clear()
+    engine.reset_library_state()
     w = World(seed, frozen)
     w.dead = False
     silent = _Silent()
